@@ -13,3 +13,7 @@ G = ['output_text passes CT_STRING chunks to add_text with is_literal == true ex
      'no pass rewrites m_str of string chunks', 'comment half (output_comment_*, cmt_reflow: std::wregex, std::map) is out of reach of the C++ front end: NOT covered',
      'parse_string / parse_cr_string / parse_comment capture the full text: not under contract']
 MACRO_HEADERS = ['output_macros.h']
+
+sys.path.insert(0, os.path.join(os.path.dirname(os.path.abspath(__file__)), '..', '..', 'tools'))
+import replay_lib  # noqa: E402
+REPLAY = replay_lib.make_replay(replay_lib.scenario_encoding, replay_lib.scenario_whitespace_hygiene)
